@@ -333,7 +333,7 @@ type ctxSite struct{ fn, path, bind, built string }
 //     loadTracer, buildCache) and the package-level variables.
 func (p *pkg) emitLifetimes(b *strings.Builder) {
 	var sites []ctxSite
-	var stores, calls, rebinds, envWrites, loadedStores, paramWrites, callEdges []string
+	var stores, calls, rebinds, envWrites, loadedStores, paramWrites, callEdges, mapKeys []string
 	pkgFuncs := map[string]bool{}
 	for _, fd := range p.allFuncs() {
 		pkgFuncs[fd.Name.Name] = true
@@ -452,6 +452,14 @@ func (p *pkg) emitLifetimes(b *strings.Builder) {
 				}
 			case *ast.AssignStmt:
 				for _, l := range x.Lhs {
+					// the key expressions of the maps that are hashed into digests: deps[..] in
+					// buildNode (the Deps of the action), m[..] in fileSet.fileNodes (FileNodes)
+					if ix, ok := l.(*ast.IndexExpr); ok {
+						if id, ok := ix.X.(*ast.Ident); ok &&
+							((fname == "Builder.buildNode" && id.Name == "deps") || (fname == "fileSet.fileNodes" && id.Name == "m")) {
+							mapKeys = append(mapKeys, fmt.Sprintf("(%s, %s, %s)", coqStr(fname), coqStr(id.Name), coqStr(p.src(ix.Index))))
+						}
+					}
 					// element of a slice / map parameter: p[i] = ...
 					if ix, ok := l.(*ast.IndexExpr); ok {
 						if id, ok := ix.X.(*ast.Ident); ok {
@@ -549,6 +557,8 @@ func (p *pkg) emitLifetimes(b *strings.Builder) {
 	// every append / copy / sort whose first argument is a slice parameter:
 	// (function, kind, statement)
 	fmt.Fprintf(b, "Definition param_writes : list (string * string * string) :=\n  %s.\n\n", coqList(paramWrites))
+	// key expressions of the hashed maps: (function, map, key expression)
+	fmt.Fprintf(b, "Definition digest_map_keys : list (string * string * string) :=\n  %s.\n\n", coqList(mapKeys))
 	// call graph: (caller, caller's base name, callee's base name); os.Stat /
 	// os.Lstat / os.Readlink are leaves; a method call is an edge to every
 	// function of that name
